@@ -63,6 +63,9 @@ MUT = [
     ("C18", "Unit.__str__ back to str(Decimal) (exponent for 1E+5)", True, [(DT, 'return f"{self.value:f}{self.unit}"', 'return str(self.value) + self.unit')]),
     ("C18", "Unit(text) without the default unit (\"1.5\" gets an empty unit)", True, [(DT, "            unit = match.group(2) or unit", "            unit = match.group(2)")]),
     ("C18", "Duration.encode: fraction written with %d instead of %06d (1.05 s -> PT..01.50000S)", True, [(DT, "{microseconds % 1000000:06d}S", "{microseconds % 1000000:d}S")]),
+    ("C18", "date / dateTime check accepts a space for the T (fromisoformat then reads it)", True, [(DT, 'r"(?:T\\d{2}:\\d{2}:\\d{2}(?:\\.\\d+)?', 'r"(?:[T ]\\d{2}:\\d{2}:\\d{2}(?:\\.\\d+)?')]),
+    ("C18", "Boolean.encode: strings compared without lower() (\"True\" refused)", True, [(DT, '        if value is True or str(value).lower() == "true":', '        if value is True or str(value) == "true":')]),
+    ("C18", "Unit.convert: centimetres divided by 2.5", True, [(DT, 'Decimal("2.54")', 'Decimal("2.5")')]),
     ("C18", "REWRITE Duration.encode with divmod on integers", False, [(DT,
         "        hours = microseconds / (60 * 60 * 1000000)\n        microseconds %= 60 * 60 * 1000000\n\n        minutes = microseconds / (60 * 1000000)\n        microseconds %= 60 * 1000000\n\n        seconds = microseconds / 1000000\n",
         "        hours, microseconds = divmod(microseconds, 60 * 60 * 1000000)\n        minutes, microseconds = divmod(microseconds, 60 * 1000000)\n        seconds = microseconds // 1000000\n")]),
@@ -98,6 +101,13 @@ MUT = [
         "        self.clear()\n        if value is None:\n            value_str = \"\"", "        if value is None:\n            value_str = \"\"")]),
     ("C06", "set_value_and_type: office:currency not removed (visible only over a currency cell through the raw call)", True, [(ET,
         '            "office:currency",\n            "calcext:value-type",', '            "calcext:value-type",')]),
+    ("C06", "currency cells: office:currency not written", True, [(ET,
+        '            self.set_attribute("office:value", value)\n            self.set_attribute("office:currency", currency)\n', '            self.set_attribute("office:value", value)\n')]),
+    ("C06", "get_value(get_type=True) reports float for percentage and currency", True, [(ET,
+        "            with contextlib.suppress(ValueError):\n                if int(value) == value:\n                    return (int(value), value_type)\n            return (value, value_type)",
+        "            with contextlib.suppress(ValueError):\n                if int(value) == value:\n                    return (int(value), \"float\")\n            return (value, \"float\")")]),
+    ("C06", "Row.set_value writes a cell repeated twice (a neighbour of the addressed cell changes)", True, [(S + "row.py",
+        "            x,\n            Cell(value, style=style, cell_type=cell_type, currency=currency),\n", "            x,\n            Cell(value, style=style, cell_type=cell_type, currency=currency, repeated=2),\n")]),
     ("C06", "REWRITE Cell.set_value without clear() (the removal list of set_value_and_type does the work)", False, [(CELL,
         "        self.clear()\n        text = self.set_value_and_type(", "        text = self.set_value_and_type(")]),
     ("C06", "REWRITE str branch moved before datetime in set_value_and_type; set literal as tuple in Cell.value", False, [
